@@ -13,7 +13,11 @@ package main
 //	                               list of its switch, whose body sets alertLevelWarning)
 //	rxAppDataNeedsCipher           readRecordOrCCS has `if c.in.cipher == nil && typ ==
 //	                               recordTypeApplicationData { return …alertUnexpectedMessage }`
-//	rxPaddingWindow                the literal of `toCheck := K` in extractPadding
+//	rxPaddingWindow                the literal of `toCheck := K` in extractPadding (INFORMATIONAL: extractPadding
+//	                               is translated on every run and Tie/Padding.lean proves the translated text equal
+//	                               to the model with its 256-byte window for every payload, so this text match is
+//	                               neither pinned by C05_facts nor ever reported as a missing fact; 0 = the
+//	                               statement was not found under that name)
 //	rxPostHandshakeRefused         `case recordTypeHandshake:` contains `if handshakeComplete {
 //	                               return c.in.setErrorLocked(c.sendAlert(alertNoRenegotiation)) }`
 //	                               (the repair of F8)
@@ -149,7 +153,12 @@ func emitRecordRx(e *emitter, p *pkg) {
 			win, okWin = p.evalInt(as.Rhs[0], 0, 0)
 		}
 	}
-	e.nat("rxPaddingWindow", win, okWin)
+	// informational since the translation tie (Tie/Padding.lean: tie_extractPadding): a renamed local
+	// or a re-arranged clamp must not make a fact "missing" (that would fail every property's check)
+	if !okWin || win < 0 {
+		win = 0
+	}
+	e.nat("rxPaddingWindow", win, true)
 
 	// the record-type switch
 	postHs, defRefuses := false, false
